@@ -325,7 +325,7 @@ def g_case(case) -> str:
 
 
 HEADER = """From Coq Require Import List ZArith.
-From Krrood Require Import Base.Sx Eql.Syntax Eql.Sat Eql.Eval Eql.Show.
+From Krrood Require Import Base.Sx Eql.Syntax Eql.Sat Eql.Eval Eql.Show Eql.ShowFrag.
 Import ListNotations. Open Scope Z_scope."""
 HEADER_SPEC = HEADER  # Show.v depends on the model; when the model is broken the harness falls back to SPEC_ONLY below
 SPEC_ONLY_HEADER = """From Coq Require Import List ZArith.
